@@ -211,12 +211,12 @@ func checkC13(p *Program, r *Report) {
 			}
 		})
 	}
-	r.Floor("R13.1", "Δt-weighted accumulators", nAcc, 3)
+	r.Floor("R13.1", "Δt-weighted accumulators", nAcc, 2)
 	r.Rule("R13.4", "balance structure: expanded as symbolic polynomials over SSA values, every term of each reported total's increment (outflow, rainfall volume, evaporation volume) is a term of the accepted-step volume update with the same factor (hence the same units and the same area/sub-step), every other term of the volume update is a direct input × Δt, and spilled water is removed from the volume by the amount added to the outflow")
 	for _, sl := range sls {
 		checkBalanceTerms(p, r, m, k, key, sl, loops)
 	}
-	r.Floor("R13.4", "balance obligations", r.PerRule["R13.4"][0], 4)
+	r.Floor("R13.4", "balance obligations", r.PerRule["R13.4"][0], 2)
 
 	// ---- R13.2
 	stateIdx := map[string]int{}
@@ -434,7 +434,7 @@ func checkC13(p *Program, r *Report) {
 			}
 		})
 	}
-	r.Floor("R13.3", "outflow contributions", r.PerRule["R13.3"][0], 2)
+	r.Floor("R13.3", "outflow contributions", r.PerRule["R13.3"][0], 1)
 	checkReleaseRuleOnEveryPath(p, r, m, k, key)
 	// R13.6: a sub-step never outruns what is left of the timestep
 	r.Rule("R13.6", "the sub-step is capped by the time remaining: the Δt subtracted from the remaining-time variable T of the sub-step loop depends on a math.Min(T, ·) evaluated earlier in the same iteration (a call that dominates the subtraction and has T itself as an argument) — a cap by anything else (the whole timestep) lets an accepted sub-step integrate past the end of the timestep while the totals are still divided by its nominal length")
